@@ -5,3 +5,4 @@ import OsyrisProofs.C13
 #print axioms Osyris.C13.C13_read_offsets_independent
 #print axioms Osyris.C13.C13_no_merge_1d
 #print axioms Osyris.C13.C13_merge_collision_witness
+#print axioms Osyris.Readers.readAt_aligned
